@@ -3,6 +3,7 @@
    assumptions on every run. *)
 From Yv Require Import Common.Base C12.Model C12.Spec C12.Script.
 From Yv Require Import C12.Proofs C12.ProofsId C12.ProofsScript.
+From Yv Require Import C12.Last C12.ProofsLast C12.ProofsIdExt.
 
 Theorem inv_init : Inv empty.
 Proof. exact inv_empty. Qed.
@@ -111,6 +112,69 @@ Example jobid_gap_example :
   find_job (run ops) IdPrevious = Found 1.
 Proof. exact jobid_gap_example_l. Qed.
 
+(* --- `$!` (JobList::last_async_pid), Last.v ----------------------------- *)
+
+(* after every history, `$!` is the operand of the most recent
+   set_last_async_pid (0 if there was none): no other operation changes it *)
+Theorem last_is_most_recent_set : forall ops p, most_recent_set ops p -> last (lrun ops) = p.
+Proof. exact last_is_most_recent_set_l. Qed.
+
+(* ... and every history has one (the theorem above is never vacuous) *)
+Theorem most_recent_set_total : forall ops, exists p, most_recent_set ops p.
+Proof. exact most_recent_set_total_l. Qed.
+
+(* per operation, in every state (no invariant needed) *)
+Theorem last_step : forall s o, last (lstep s o) = last_expected (last s) o.
+Proof. exact last_step_l. Qed.
+
+(* the lifted operations are the old ones on the job table, and
+   set_last_async_pid leaves the table alone: all theorems above carry over *)
+Theorem lifted_step_agrees : forall s o, tbl (lstep s (LOp o)) = step (tbl s) o.
+Proof. exact lifted_step_agrees_l. Qed.
+Theorem set_last_keeps_table : forall s p, tbl (lstep s (OSetLast p)) = tbl s.
+Proof. exact set_last_keeps_table_l. Qed.
+Theorem lifted_run_agrees : forall ops, tbl (lrun ops) = run (strip ops).
+Proof. exact lifted_run_agrees_l. Qed.
+Theorem lifted_inv_reachable : forall ops, ops_ok empty (strip ops) = true -> Inv (tbl (lrun ops)).
+Proof. exact lifted_inv_reachable_l. Qed.
+
+(* the run-time oracle clause (code 20) never rejects the model *)
+Theorem last_ok_sound : forall s o, last_ok (last s) o (last (lstep s o)) = true.
+Proof. exact last_ok_sound_l. Qed.
+
+(* non-vacuity, and the scenario of the seeded defect: a removal that empties
+   the table does not reset `$!` *)
+Example last_survives_emptying :
+  let ops := [OSetLast 11; LOp (OInsert 10 Running []); LOp (ORemove 0)]%Z in
+  len (tbl (lrun ops)) = 0 /\ last (lrun ops) = 11%Z /\ most_recent_set ops 11%Z.
+Proof. exact last_survives_emptying_l. Qed.
+
+(* --- job IDs: the outcome is pinned in every table ---------------------- *)
+
+(* [designates] admits exactly one outcome (a job, NotFound or Ambiguous) in
+   ANY table, with or without the invariant *)
+Theorem designates_functional : forall s id r1 r2,
+  designates s id r1 -> designates s id r2 -> r1 = r2.
+Proof. exact designates_functional_l. Qed.
+
+(* so JobId::find returns the prescribed outcome and no other *)
+Theorem jobid_resolution_complete : forall s id r,
+  Inv s -> (designates s id r <-> find_job s id = r).
+Proof. exact find_job_complete_l. Qed.
+
+(* %name / %?name: not found iff no job's name matches, ambiguous iff two jobs'
+   names match, job i iff i is the only job whose name matches *)
+Theorem name_id_outcomes : forall s id,
+  Inv s -> (match id with IdPrefix _ | IdSubstr _ => True | _ => False end) ->
+  (find_job s id = NotFound <-> forall i j, get s i = Some j -> ~ name_matches id j) /\
+  (find_job s id = Ambiguous <->
+     exists i1 i2 j1 j2, i1 <> i2 /\ get s i1 = Some j1 /\ get s i2 = Some j2 /\
+                         name_matches id j1 /\ name_matches id j2) /\
+  (forall i, find_job s id = Found i <->
+     exists j, get s i = Some j /\ name_matches id j /\
+               forall i' j', get s i' = Some j' -> name_matches id j' -> i' = i).
+Proof. exact name_id_outcomes_l. Qed.
+
 Print Assumptions inv_init.
 Print Assumptions inv_step.
 Print Assumptions inv_reachable.
@@ -128,3 +192,15 @@ Print Assumptions resolve_obs_sound.
 Print Assumptions script_step_inv.
 Print Assumptions insert_live_pid_breaks_inv.
 Print Assumptions jobid_gap_example.
+Print Assumptions last_is_most_recent_set.
+Print Assumptions most_recent_set_total.
+Print Assumptions last_step.
+Print Assumptions lifted_step_agrees.
+Print Assumptions set_last_keeps_table.
+Print Assumptions lifted_run_agrees.
+Print Assumptions lifted_inv_reachable.
+Print Assumptions last_ok_sound.
+Print Assumptions last_survives_emptying.
+Print Assumptions designates_functional.
+Print Assumptions jobid_resolution_complete.
+Print Assumptions name_id_outcomes.
